@@ -23,6 +23,7 @@ func runC12(c *Ctx) {
 	ruleConfigAgreement(c)
 	ruleReverseGroups(c)
 	ruleDerivedSignatures(c)
+	ruleIsNilMeansNull(c, "R12.f")
 	c.assume("primitive handler operations behave like Redis (the property grants this); ReverseBy's index arithmetic is in range only for len % step == 0, i.e. for member/score pairs")
 }
 
